@@ -557,7 +557,7 @@ def _np_sum(interp):
             return x
         if axis is None:
             if any(is_sym(s) for s in x.shape):
-                return interp.symbolic_sum(x)
+                raise Unsupported("sum over all elements of an array whose shape is symbolic")
             flat = A._flatten(x.elements(), x.ndim) if x.ndim else [x.read(())]
             return _sum_elements(flat)
         return _reduce_axis(x, axis, _sum_elements, interp)
